@@ -394,6 +394,15 @@ def gen_recipe(rng):
             members.append({"kind": "getattr", "name": "__getattr__", "use": None})
         elif k == "hook_own" and rng.random() < 0.3:
             members.append({"kind": "hook_own", "name": "__attrs_init_subclass__"})
+    # free variables of the enclosing function next to __class__: cells that are still EMPTY when the decorator runs
+    # (sorting before / after `__class__` in co_freevars) or hold some other object
+    free = rng.choice([None, None, "before", "after", "both", "bound"])
+    r["free"] = free
+    if free:
+        r["nest"] = "func"
+        for m in members:
+            if m["kind"] in ("func", "cm", "sm", "prop", "cached", "getattr", "descr", "wrapped") and rng.random() < 0.7:
+                m["free"] = free
     # instances of strict SUBCLASSES of the kinds the builder tests for (isinstance everywhere)
     for m in members:
         if m["kind"] in ("cm", "sm", "prop", "cached") and rng.random() < 0.3:
@@ -430,7 +439,24 @@ def _expr(use):
     return "__class__" if use == "class" else "super().__thisclass__"
 
 
+FREE_NAMES = {"before": "AFREE", "after": "zfree", "both": "AFREE, zfree", "bound": "bound_"}
+
+
 def member_lines(m):
+    out = _member_lines(m)
+    if m.get("free"):
+        # never executed (BOX is a list), but makes the names free variables of the function
+        guard = ["    if BOX is None:", "        " + FREE_NAMES[m["free"]]]
+        res = []
+        for l in out:
+            res.append(l)
+            if l.startswith("def ") and l.rstrip().endswith(":"):
+                res += guard
+        return res
+    return out
+
+
+def _member_lines(m):
     k, n = m["kind"], m["name"]
     if k in ("func", "descr", "wrapped", "cm", "sm"):
         head = {"func": [], "descr": ["@Desc"], "wrapped": ["@deco"], "cm": ["@CM2" if m.get("sub") else "@classmethod"],
@@ -522,7 +548,9 @@ def source_of(r):
     if r["nest"] == "top":
         out += cls_lines + ["ORIG = C", "del C"]
     elif r["nest"] == "func":
-        out += ["def make():"] + ["    " + l for l in cls_lines] + ["    return C", "ORIG = make()"]
+        pre = ["    bound_ = 7"] if r.get("free") == "bound" else []
+        post = ["    AFREE = 1", "    zfree = 2"] if r.get("free") in ("before", "after", "both") else []
+        out += ["def make():"] + pre + ["    " + l for l in cls_lines] + ["    return C"] + post + ["ORIG = make()"]
     else:
         out += ["class Outer:"] + ["    " + l for l in cls_lines] + ["ORIG = Outer.C"]
     return "\n".join(out) + "\n"
